@@ -192,7 +192,7 @@ FamBatch ==
                     <<Kind(nt[1], nt[2], "dup"), Kind(nt[1], nt[2], "v1s"), Kind(nt[1], nt[2], "dup")>>,
                     <<Kind(nt[1], nt[2], "dup"), Kind(nt[1], nt[2], "xs"), Kind(nt[1], nt[2], "dup")>> }
   IN  { ScenF(Plain3(nt, d, a), "VerifyOnly", NoSkew, FALSE, <<Kind(nt[1], nt[2], "v1")>>) : nt \in NT, d \in DisKinds \cup BadKinds, a \in 1..3 }
-  \cup { ScenF(ms, mode, NoSkew, FALSE, <<Kind(nt[1], nt[2], "v1")>>) : nt \in NT, ms \in Dups(nt), mode \in {"VerifyOnly", "RecoverAndVerify"} }
+  \cup UNION { { ScenF(ms, mode, NoSkew, FALSE, <<Kind(nt[1], nt[2], "v1")>>) : ms \in Dups(nt), mode \in {"VerifyOnly", "RecoverAndVerify"} } : nt \in NT }
   \cup { ScenF(Mem(l, nt), mode, NoSkew, FALSE, <<Kind(nt[1], nt[2], "v1")>>) : l \in {l \in Lay : Good(l)}, nt \in NT, mode \in {"VerifyOnly", "RecoverAndVerify"} }
   \cup { ScenF(Mem([k |-> k, pt |-> 2, a |-> 0, ka |-> "xs", b |-> 0, kb |-> "xs"], <<4, 1>>), "VerifyOnly", sk, FALSE, <<Kind(4, 1, "v1")>>) : k \in {1, 2, MaxBatch + 1}, sk \in Sk }
 
